@@ -21,11 +21,12 @@ class TaskError(Exception):
     pass
 
 
-def scenario(ch, W, outcomes, stop_early=False):
+def scenario(ch, W, outcomes, stop_after=None, lazy=False):
     """Returns list of (clause, message)."""
     import infretis.asyncrunner as ar
 
     world = vloop.World(ch)
+    world.lazy = lazy
     world.install()
     bad = []
     try:
@@ -47,13 +48,23 @@ def scenario(ch, W, outcomes, stop_early=False):
         set_calls = {}
         # main program: submit all, collect all, stop — interleaved with the other side
         pc = 0
-        program = [("submit", u) for u in units] + [("collect",)] * len(units) + [("stop",)]
+        runner_stopped = False
+        # stop_after = k: stop() is called when only k results have been collected (the rest is still queued
+        # or running: stop() has to wait for it), the remaining results are collected afterwards
+        k_stop = len(units) if stop_after is None else stop_after
+        program = [("submit", u) for u in units] + [("collect",)] * k_stop + [("stop",)] + [("collect",)] * (len(units) - k_stop)
         while pc < len(program):
             op = program[pc]
             main_enabled = True
             if op[0] == "collect":
                 main_enabled = any(f.done() for f in futures._futures)
             en = world.enabled(main_enabled)
+            if lazy and ("main",) in en:
+                # second canonical schedule: the main thread is fast (it goes first), executor jobs are slow
+                en = [("main",)] + [a for a in en if a != ("main",)]
+            if runner_stopped and op[0] == "collect":
+                # the runner is gone: whatever was not delivered by now never will be
+                en = [("main",)] if main_enabled else []
             if not en:
                 bad.append(("deadlock", f"nothing enabled before {op[0]} (collected {len(collected)}/{len(units)})"))
                 return bad, world
@@ -82,6 +93,7 @@ def scenario(ch, W, outcomes, stop_early=False):
                         collected.append((uid, "ok", fut.result().get("id")))
             else:
                 runner.stop()
+                runner_stopped = True
             pc += 1
         # oracle
         for u in units:
@@ -123,32 +135,43 @@ def cases(quick):
             for outs in itertools.product(("ok", "raise"), repeat=n):
                 if quick and n == 3 and outs.count("raise") not in (0, 1):
                     continue
-                out.append((W, outs))
+                out.append((W, outs, None))
+                # stop() while work is queued or running
+                for k in range(n):
+                    if quick and (n == 3 or (W == 1 and n == 2 and k == 1)):
+                        continue
+                    out.append((W, outs, k))
+                    if W == 2:
+                        out.append((W, outs, -k - 1))  # the same with the lazy-executor canonical schedule
     return out
 
 
 def _job(args):
-    W, outs, max_dev = args
+    W, outs, stop_after, max_dev = args
     viols = {}
     n = 0
     pruned = 0
     shapes = set()
 
+    lazy = stop_after is not None and stop_after < 0
+    sa = stop_after if not lazy else -stop_after - 1
+
     def fn(ch):
-        return scenario(ch, W, outs)
+        return scenario(ch, W, outs, sa, lazy=lazy)
 
     for ch, res in explore(fn, max_dev=max_dev):
         n += 1
         if isinstance(res, Pruned):
             pruned += 1
-            viols.setdefault("livelock-or-horizon", (f"W={W} outcomes={outs}: run did not finish within the action horizon",
-                                                     dict(kind="vloop", W=W, outs=list(outs), choices=ch.choices)))
+            viols.setdefault("livelock-or-horizon", (f"W={W} outcomes={outs} stop_after={stop_after}: run did not finish within the action horizon",
+                                                     dict(kind="vloop", W=W, outs=list(outs), stop_after=stop_after, choices=ch.choices)))
             continue
         bad, world = res
         shapes.add(tuple(a[0] if a[0] != "main" else a[1] for a in world.log))
         for clause, msg in bad:
-            viols.setdefault(clause, (f"W={W} outcomes={outs}: {msg}", dict(kind="vloop", W=W, outs=list(outs), choices=ch.choices)))
-    return (W, outs), n, len(shapes), viols
+            viols.setdefault(clause, (f"W={W} outcomes={outs}{'' if stop_after is None else f' stop() after {sa} result(s)' + (' (lazy executor)' if lazy else '')}: {msg}",
+                                      dict(kind="vloop", W=W, outs=list(outs), stop_after=stop_after, choices=ch.choices)))
+    return (W, outs, stop_after), n, len(shapes), viols
 
 
 def run_part(ctx):
@@ -156,7 +179,7 @@ def run_part(ctx):
     import os
 
     max_dev = 2 if ctx.quick else 3
-    jobs = [(W, outs, max_dev) for W, outs in cases(ctx.quick)]
+    jobs = [(W, outs, sa, max_dev) for W, outs, sa in cases(ctx.quick)]
     with mp.get_context("fork").Pool(min(16, os.cpu_count() or 1)) as pool:
         res = pool.map(_job, jobs, chunksize=1)
     n = 0
@@ -178,7 +201,9 @@ def run_part(ctx):
 
 def replay(data):
     try:
-        bad, world = scenario(Chooser(data["choices"]), data["W"], tuple(data["outs"]))
+        sa = data.get("stop_after")
+        lazy = sa is not None and sa < 0
+        bad, world = scenario(Chooser(data["choices"]), data["W"], tuple(data["outs"]), sa if not lazy else -sa - 1, lazy=lazy)
     except Pruned:
         return [("runner:livelock-or-horizon", "run did not finish within the action horizon")]
     return [(f"runner:{c}", m) for c, m in bad]
